@@ -22,7 +22,8 @@ from . import common_rtl as C
 ID = "C11"
 LEVEL = "exploration"
 RULE = ("case = family (false: generated design with merged blocks | true: or/and/mux/inverter/plus rings of 2..14 "
-        "blocks, optionally through nets | once: update_once in a cycle) x cyclic-capable scheduler (default, mamba, "
+        "blocks, optionally through nets | once: update_once in a cycle | piecenet: a false loop through a generated net "
+        "block whose writer is driven in halves by two blocks of the group) x cyclic-capable scheduler (default, mamba, "
         "seeded-order variants) + one acyclic-only scheduler that must reject x 4..10 cycles of inputs with dup.block "
         "fixed-point probes; non-trivial = the schedule really contained an SCC super-block (or an expected error was "
         "seen); distinct = case digest")
@@ -45,6 +46,9 @@ def gen_case(R, tier):
   base = {"hash_seed": R.sub_seed("hash"), "uid": uid,
           "scheds": [[x, s.getrandbits(32)] for x in s.sample(C.CYCLIC_SCHEDS, 2)],
           "reject_sched": [s.choice(ACYCLIC_ONLY), s.getrandbits(32)]}
+  if R("fam").random() < 0.06:
+    base.update(family="piecenet", tmpl=gen_piece(R("piece"), uid))
+    return base
   if r < 0.5:
     spec = designgen.DesignGen(c, c.choice(["acyclic", "shapes", "big"]), uid=uid).gen()
     templates.merge_blocks(spec, c, c.randint(1, 4))
@@ -200,12 +204,100 @@ def run_once(case, stats):
   return []
 
 
+PIECE_SRC = '''
+from pymtl3 import *
+
+class Top_{uid}(Component):
+  def construct(s):
+    s.a = InPort(Bits4)
+    s.b = InPort(Bits4)
+    s.w = Wire(Bits8)
+    s.q = Wire(Bits{qw})
+    s.t = OutPort(Bits4)
+    s.y = OutPort(Bits4)
+{body}
+'''
+
+
+def gen_piece(c, uid):
+  """a false loop (cyclic at block level, acyclic at bit level) that runs THROUGH a generated net block: the
+  net's writer is driven piecewise by two blocks of the group, the readers read slices of the net's copy"""
+  lo = c.choice([0, 0, 4, 8])
+  n1, n2 = c.sample(["ba", "bm", "bz", "up_a", "up_z"], 2)
+  t = {"uid": uid, "qw": lo + 8 + c.choice([0, 4]), "lo": lo, "n1": n1, "n2": n2, "k": [c.randrange(16) for _ in range(4)],
+       "ops": [c.choice(["+", "^"]) for _ in range(2)], "order": c.sample(range(3), 3), "extra": c.random() < 0.4,
+       # a block in front of the group (decides where the intra-group order starts): feeds a, b, both or nothing
+       "pre": c.choice(["a", "b", "ab", "", "a", "b"]),
+       "inputs": [[c.randrange(16), c.randrange(16)] for _ in range(c.randint(4, 10))]}
+  return t
+
+
+def piece_source(t):
+  lo, k = t["lo"], t["k"]
+  pre = t.get("pre", "")
+  sa, sb = ("s.aa" if "a" in pre else "s.a"), ("s.bb" if "b" in pre else "s.b")
+  parts = [["s.q[%d:%d] //= s.w" % (lo, lo + 8)],
+           ["@update", "def %s():" % t["n1"], "  s.w[0:4] @= %s %s %d" % (sa, t["ops"][0], k[0]),
+            "  s.t @= s.q[%d:%d] + %d" % (lo + 4, lo + 8, k[1])],
+           ["@update", "def %s():" % t["n2"], "  s.w[4:8] @= %s %s %d" % (sb, t["ops"][1], k[2]),
+            "  s.y @= s.q[%d:%d] ^ %d" % (lo, lo + 4, k[3])]]
+  body = [ln for i in t["order"] for ln in parts[i]]
+  if pre:
+    body = ["s.aa = Wire(Bits4)", "s.bb = Wire(Bits4)", "@update", "def up_p():"] + \
+           ["  s.%s%s @= s.%s" % (x, x, x) for x in pre] + body
+  if t["extra"]:
+    body += ["s.u = OutPort(Bits4)", "@update", "def up_u():", "  s.u @= s.t & s.y"]
+  return PIECE_SRC.format(uid=t["uid"], qw=t["qw"], body="\n".join("    " + x for x in body))
+
+
+def run_piece(case, stats):
+  from ..sched import harness
+  from pymtl3 import Bits4
+  t = case["tmpl"]
+  k = t["k"]
+  f = lambda x, op, c_: ((x + c_) if op == "+" else (x ^ c_)) & 15
+  for sched, sseed in case["scheds"]:
+    seams.set_hash_stream(case["hash_seed"] ^ sseed)
+    try:
+      ns, cls, _ = emit.build({"uid": t["uid"], "top": "Top"}, src=piece_source(t))
+      top = cls()
+      top.elaborate()
+      harness.prepare(top, sched, sseed)
+      top.sim_reset()
+    except Exception as e:
+      return [C.exc_violation(e, "build/piece/%s" % sched)]
+    stats["fault_counts"]["sched." + sched] = stats["fault_counts"].get("sched." + sched, 0) + 1
+    if has_scc(top):
+      stats["probes"]["scc_superblock"] += 1
+    for i, (a, b) in enumerate(t["inputs"]):
+      try:
+        top.a @= Bits4(a)
+        top.b @= Bits4(b)
+        top.sim_eval_combinational()
+        got = [int(top.t), int(top.y), int(top.w), int(top.q[t["lo"]:t["lo"] + 8])]
+        top.sim_eval_combinational()
+        again = [int(top.t), int(top.y), int(top.w), int(top.q[t["lo"]:t["lo"] + 8])]
+      except Exception as e:
+        return [C.exc_violation(e, "sim/piece/%s" % sched)]
+      w = f(a, t["ops"][0], k[0]) | (f(b, t["ops"][1], k[2]) << 4)
+      want = [(f(b, t["ops"][1], k[2]) + k[1]) & 15, f(a, t["ops"][0], k[0]) ^ k[3], w, w]
+      stats["sim_cycles"] += 1
+      stats["D"].add(sched, i, got)
+      if got != want or again != want:
+        return [C.viol("false_loop_value_mismatch", {"sched": sched, "sched_seed": sseed, "where": "eval@%d" % i,
+                                                      "got_t_y_w_q": got, "second_eval": again, "want": want,
+                                                      "family": "piecenet"}, family="piecenet")]
+  return []
+
+
 def run_case(case):
   D = _rng.Digest()
   stats = {"fault_counts": {"family." + case["family"]: 1}, "sim_cycles": 0, "block_calls": 0,
            "expected_errors": 0, "probes": {"scc_superblock": 0, "scc_multi_pass": 0, "mamba_scc_ge_10_blocks": 0}, "D": D}
   if case["family"] == "once":
     v = run_once(case, stats)
+  elif case["family"] == "piecenet":
+    v = run_piece(case, stats)
   else:
     v = run_rtl(case, stats)
   stats.pop("D")
@@ -217,11 +309,22 @@ def run_case(case):
 def sample(case):
   if case["family"] == "once":
     return {"family": "once", "source": case["src"]}
+  if case["family"] == "piecenet":
+    return {"family": "piecenet", "scheds": case["scheds"], "source": piece_source(case["tmpl"])}
   return {"family": case["family"], "meta": case["meta"], "scheds": case["scheds"],
           "source_head": emit.source(case["spec"])[:1500]}
 
 
 def shrink(case):
+  if case["family"] == "piecenet":
+    if len(case["scheds"]) > 1:
+      for s in case["scheds"]:
+        yield dict(case, scheds=[s])
+    seq = case["tmpl"]["inputs"]
+    for i in range(len(seq)):
+      if len(seq) > 1:
+        yield dict(case, tmpl=dict(case["tmpl"], inputs=seq[:i] + seq[i + 1:]))
+    return
   if case["family"] != "once":
     if len(case["scheds"]) > 1:
       for s in case["scheds"]:
